@@ -311,7 +311,7 @@ def battery(doc_ctx_path):
         ("num", "count(exsl:node-set('abc'))", "1"), ("str", "string(exsl:node-set('abc'))", "abc"),
         ("bool", "boolean(exsl:node-set('abc')/self::text())", ("known", "K-C02x-5", "true")),
         ("num", "count(exsl:node-set(12))", ("known", "K-C02x-5", "1")),
-        ("num", "count(set:distinct(exsl:node-set($rtf2)/*))", "2"), ("str", "name(set:distinct(exsl:node-set($rtf2)/*)[2])", "y"),
+        ("num", "count(set:distinct(exsl:node-set($rtf2)/*))", "3"), ("str", "name(set:distinct(exsl:node-set($rtf2)/*)[2])", "y"),
         ("num", "math:max(exsl:node-set($rtf2)/*)", "7"), ("str", "name(math:highest(exsl:node-set($rtf2)/*)[1])", "y"),
         ("str", "name(set:leading(exsl:node-set($rtf2)/*, exsl:node-set($rtf2)/z)[last()])", "y"),
         ("num", "count(dyn:evaluate(''))", "0"), ("num", "count(dyn:evaluate('1 +'))", "0"), ("str", "exsl:object-type(dyn:evaluate('1 +'))", "node-set"),
